@@ -45,3 +45,15 @@ def omp_harness(tree, out_dir, flavour):
     if [f for f in forks if f != "GOMP_parallel"]:
         raise build.BuildError("unmodelled OpenMP fork entry points: %r" % forks)
     return exe, note
+
+
+def drive(tree, out_dir, flavour):
+    """C08 native driver: flavour asan | plain"""
+    src = build.csrc(tree)
+    out_dir = Path(out_dir)
+    out_dir.mkdir(parents=True, exist_ok=True)
+    exe = out_dir / ("drive_" + flavour)
+    san = ["-fsanitize=address,undefined", "-fsanitize-recover=address,undefined"] if flavour == "asan" else []
+    cc(["gcc", "-O1", "-g", "-DNDEBUG", "-I" + str(src)] + san +
+       [str(NATIVE / "drive.c"), str(src / "dd_dtw.c"), str(src / "dd_ed.c"), "-lm", "-o", str(exe)], out_dir)
+    return exe
